@@ -26,8 +26,21 @@ def Tight (s s' : St) : Prop := EofLast ctx → s.pos < ctx.toks.size → s'.pos
 /-- a result state lies at or behind `s`, inside the array, under the same reference position -/
 def PostW (s s' : St) : Prop := s.pos ≤ s'.pos ∧ s'.pos ≤ ctx.toks.size ∧ s'.refPos = s.refPos
 
-/-- … and the final `Eof` is not consumed -/
-def Post (s s' : St) : Prop := s.pos ≤ s'.pos ∧ s'.pos ≤ ctx.toks.size ∧ s'.refPos = s.refPos ∧ Tight ctx s s'
+/-- no `proc` / `type` keyword among the tokens consumed between `s` and `s'` -/
+def Clean (s s' : St) : Prop :=
+  ∀ i t, s.pos ≤ i → i < s'.pos → ctx.toks[i]? = some t → t.kind ≠ Kind.Proc ∧ t.kind ≠ Kind.Type
+
+/-- … and the final `Eof` is not consumed (declaration level: the declaration's own keyword is consumed) -/
+def PostK (s s' : St) : Prop := s.pos ≤ s'.pos ∧ s'.pos ≤ ctx.toks.size ∧ s'.refPos = s.refPos ∧ Tight ctx s s'
+
+/-- … and no `proc` / `type` keyword either -/
+def Post (s s' : St) : Prop :=
+  s.pos ≤ s'.pos ∧ s'.pos ≤ ctx.toks.size ∧ s'.refPos = s.refPos ∧ Tight ctx s s' ∧ Clean ctx s s'
+
+/-- token kinds other than the final `Eof` and the two declaration keywords -/
+def Plain (k : Kind) : Prop := k ≠ Kind.Eof ∧ k ≠ Kind.Proc ∧ k ≠ Kind.Type
+
+instance (k : Kind) : Decidable (Plain k) := by unfold Plain; infer_instance
 
 structure Safe {α} (p : P α) (s : St) : Prop where
   np : ∀ e, p s ≠ .panic e
@@ -41,15 +54,43 @@ structure SafeW {α} (p : P α) (s : St) : Prop where
   ok : ∀ s' a, p s = .ok s' a → PostW ctx s s'
   er : ∀ k s', p s = .err k s' → k = false ∧ Post ctx s s'
 
+/-- declaration level: a declaration consumes its own keyword -/
+structure SafeK {α} (p : P α) (s : St) : Prop where
+  np : ∀ e, p s ≠ .panic e
+  ok : ∀ s' a, p s = .ok s' a → PostK ctx s s'
+  er : ∀ k s', p s = .err k s' → k = false ∧ PostK ctx s s'
+
 theorem Post.w {s s' : St} (h : Post ctx s s') : PostW ctx s s' := ⟨h.1, h.2.1, h.2.2.1⟩
+
+theorem Post.k {s s' : St} (h : Post ctx s s') : PostK ctx s s' := ⟨h.1, h.2.1, h.2.2.1, h.2.2.2.1⟩
 
 theorem Safe.w {α} {p : P α} {s : St} (h : Safe ctx p s) : SafeW ctx p s :=
   ⟨h.np, fun s' a e => (h.ok s' a e).w, h.er⟩
 
-theorem Post.refl {s : St} (hw : WF ctx s) : Post ctx s s := ⟨Nat.le_refl _, hw.2, rfl, fun _ h => h⟩
+theorem Safe.k {α} {p : P α} {s : St} (h : Safe ctx p s) : SafeK ctx p s :=
+  ⟨h.np, fun s' a e => (h.ok s' a e).k, fun k s' e => ⟨(h.er k s' e).1, (h.er k s' e).2.k⟩⟩
+
+theorem PostK.refl {s : St} (hw : WF ctx s) : PostK ctx s s := ⟨Nat.le_refl _, hw.2, rfl, fun _ h => h⟩
+
+theorem PostK.trans {a b c : St} (h1 : PostK ctx a b) (h2 : PostK ctx b c) : PostK ctx a c :=
+  ⟨Nat.le_trans h1.1 h2.1, h2.2.1, h2.2.2.1.trans h1.2.2.1, fun he hb => h2.2.2.2 he (h1.2.2.2 he hb)⟩
+
+theorem PostK.wf {s s' : St} (h : PostK ctx s s') (hw : WF ctx s) : WF ctx s' :=
+  ⟨by rw [h.2.2.1]; exact Nat.le_trans hw.1 h.1, h.2.1⟩
+
+theorem Clean.refl (s : St) : Clean ctx s s := by intro i t h1 h2; omega
+
+theorem Clean.trans {a b c : St} (h1 : Clean ctx a b) (h2 : Clean ctx b c) : Clean ctx a c := by
+  intro i t hi1 hi2 ht
+  by_cases hb : i < b.pos
+  · exact h1 i t hi1 hb ht
+  · exact h2 i t (by omega) hi2 ht
+
+theorem Post.refl {s : St} (hw : WF ctx s) : Post ctx s s := ⟨Nat.le_refl _, hw.2, rfl, fun _ h => h, Clean.refl ctx s⟩
 
 theorem Post.trans {a b c : St} (h1 : Post ctx a b) (h2 : Post ctx b c) : Post ctx a c :=
-  ⟨Nat.le_trans h1.1 h2.1, h2.2.1, h2.2.2.1.trans h1.2.2.1, fun he hb => h2.2.2.2 he (h1.2.2.2 he hb)⟩
+  ⟨Nat.le_trans h1.1 h2.1, h2.2.1, h2.2.2.1.trans h1.2.2.1, fun he hb => h2.2.2.2.1 he (h1.2.2.2.1 he hb),
+    Clean.trans ctx h1.2.2.2.2 h2.2.2.2.2⟩
 
 theorem Post.wf {s s' : St} (h : Post ctx s s') (hw : WF ctx s) : WF ctx s' :=
   ⟨by rw [h.2.2.1]; exact Nat.le_trans hw.1 h.1, h.2.1⟩
@@ -189,21 +230,27 @@ theorem take1_np (s : St) (e : Panic) : take1 ctx s ≠ .panic e := by
   unfold take1
   cases ctx.toks[s.pos]? <;> simp
 
-/-- taking a token that is not the final `Eof` -/
-theorem take1_post {s s' : St} {t : Token} (hw : WF ctx s) (h : take1 ctx s = .ok s' t) (hk : t.kind ≠ Kind.Eof) :
+/-- taking a token that is neither the final `Eof` nor a declaration keyword -/
+theorem take1_post {s s' : St} {t : Token} (hw : WF ctx s) (h : take1 ctx s = .ok s' t) (hk : Plain t.kind) :
     Post ctx s s' := by
   obtain ⟨rfl, ht⟩ := take1_ok ctx h
   have hlt : s.pos < ctx.toks.size := (Array.getElem?_eq_some_iff.mp ht).1
-  refine ⟨Nat.le_succ _, hlt, rfl, ?_⟩
-  intro he _
-  obtain ⟨tl, htl, hkl⟩ := he.last
-  show s.pos + 1 < ctx.toks.size
-  by_cases hq : s.pos + 1 = ctx.toks.size
-  · have : s.pos = ctx.toks.size - 1 := by omega
-    rw [← this, ht] at htl
-    cases htl
-    exact absurd hkl hk
-  · omega
+  refine ⟨Nat.le_succ _, hlt, rfl, ?_, ?_⟩
+  · intro he _
+    obtain ⟨tl, htl, hkl⟩ := he.last
+    show s.pos + 1 < ctx.toks.size
+    by_cases hq : s.pos + 1 = ctx.toks.size
+    · have : s.pos = ctx.toks.size - 1 := by omega
+      rw [← this, ht] at htl
+      cases htl
+      exact absurd hkl hk.1
+    · omega
+  · intro i t' hi1 hi2 ht'
+    have : i = s.pos := by simp at hi2; omega
+    subst this
+    rw [ht] at ht'
+    cases ht'
+    exact hk.2
 
 theorem take1_postW {s s' : St} {t : Token} (h : take1 ctx s = .ok s' t) : PostW ctx s s' := by
   obtain ⟨rfl, ht⟩ := take1_ok ctx h
@@ -216,7 +263,7 @@ theorem comment_safe (s : St) (hw : WF ctx s) : Safe ctx (comment ctx) s := by
     cases hty : t.ty with
     | Comment c =>
       exact safe_of_ok ctx (s' := s') (a := c) (by simp [comment, h, hty])
-        (take1_post ctx hw h (by simp [Token.kind, hty, TokenType.kind]))
+        (take1_post ctx hw h (by simp [Plain, Token.kind, hty, TokenType.kind]))
     | _ => exact safe_of_err ctx (s' := s) (by simp [comment, h, hty]) (Post.refl ctx hw)
   | err k s' =>
     obtain ⟨rfl, rfl⟩ := take1_err ctx h
@@ -228,7 +275,7 @@ theorem comments_safe (fuel : Nat) (s : St) (hw : WF ctx s) (hf : ctx.toks.size 
   many0_safe ctx (comment ctx) s.refPos fuel s hw hf rfl (fun s' w _ _ => comment_safe ctx s' w)
 
 /-- a token parser whose predicate does not accept `Eof` -/
-theorem tag_safe (fuel : Nat) (pred : TokenType → Bool) (hpred : ∀ ty, pred ty = true → ty.kind ≠ Kind.Eof)
+theorem tag_safe (fuel : Nat) (pred : TokenType → Bool) (hpred : ∀ ty, pred ty = true → Plain ty.kind)
     (s : St) (hw : WF ctx s) (hf : ctx.toks.size - s.pos < fuel) : Safe ctx (tag ctx fuel pred) s := by
   have hm := comments_safe ctx fuel s hw hf
   cases h : many0 (comment ctx) fuel s with
@@ -307,12 +354,12 @@ theorem loopFuel_ok (s : St) (hw : WF ctx s) : ctx.toks.size - s.pos < loopFuel 
   simp only [loopFuel]
   omega
 
-theorem tk_safe (k : Kind) (s : St) (hw : WF ctx s) (hk : k ≠ Kind.Eof := by decide) : Safe ctx (tk ctx k) s := by
+theorem tk_safe (k : Kind) (s : St) (hw : WF ctx s) (hk : Plain k := by decide) : Safe ctx (tk ctx k) s := by
   show Safe ctx (tag ctx (loopFuel ctx) (fun ty => ty.kind == k)) s
   refine tag_safe ctx _ _ ?_ s hw (loopFuel_ok ctx s hw)
-  intro ty hty he
+  intro ty hty
   have : ty.kind = k := by simpa using hty
-  exact hk (this ▸ he)
+  exact this ▸ hk
 
 theorem tk_safeW (k : Kind) (s : St) (hw : WF ctx s) : SafeW ctx (tk ctx k) s := by
   show SafeW ctx (tag ctx (loopFuel ctx) (fun ty => ty.kind == k)) s
@@ -404,8 +451,12 @@ theorem confusable_safe {α} {p : P α} (msg : Msg) {s : St} (hw : WF ctx s) (hp
 def AtEof (pattern : P Unit) : Prop :=
   EofLast ctx → ∀ s', WF ctx s' → s'.pos + 1 = ctx.toks.size → ∀ k x, pattern s' ≠ .err k x
 
+/-- a pattern that does not fail in front of a declaration keyword (every synchronisation set accepts them) -/
+def AtKw (pattern : P Unit) : Prop :=
+  ∀ s' t, WF ctx s' → ctx.toks[s'.pos]? = some t → (t.kind = Kind.Proc ∨ t.kind = Kind.Type) → ∀ k x, pattern s' ≠ .err k x
+
 /-- `ignore_until0`: the pattern is tried at every position up to the end of the array -/
-theorem ignoreUntil0_safe (pattern : P Unit) (hE : AtEof ctx pattern) (r : Nat) : ∀ (fuel start : Nat) (s0 s : St), WF ctx s →
+theorem ignoreUntil0_safe (pattern : P Unit) (hE : AtEof ctx pattern) (hK : AtKw ctx pattern) (r : Nat) : ∀ (fuel start : Nat) (s0 s : St), WF ctx s →
     ctx.toks.size - s.pos < fuel → s.refPos = r → Post ctx s0 s →
     (∀ s', WF ctx s' → s.pos ≤ s'.pos → s'.refPos = r → Safe ctx pattern s') →
     (∀ e, ignoreUntil0 ctx pattern fuel start s ≠ .panic e) ∧
@@ -430,18 +481,26 @@ theorem ignoreUntil0_safe (pattern : P Unit) (hE : AtEof ctx pattern) (r : Nat) 
         obtain ⟨rfl, ht⟩ := take1_ok ctx h2
         have hw1 := take1_postW ctx h2
         have hp1 : Post ctx s { s with pos := s.pos + 1 } := by
-          refine ⟨hw1.1, hw1.2.1, rfl, ?_⟩
-          intro he _
-          show s.pos + 1 < ctx.toks.size
-          have hlt : s.pos < ctx.toks.size := (Array.getElem?_eq_some_iff.mp ht).1
-          by_cases hq : s.pos + 1 = ctx.toks.size
-          · exact absurd h (hE he s hw hq k x)
-          · omega
+          refine ⟨hw1.1, hw1.2.1, rfl, ?_, ?_⟩
+          · intro he _
+            show s.pos + 1 < ctx.toks.size
+            have hlt : s.pos < ctx.toks.size := (Array.getElem?_eq_some_iff.mp ht).1
+            by_cases hq : s.pos + 1 = ctx.toks.size
+            · exact absurd h (hE he s hw hq k x)
+            · omega
+          · intro i t' hi1 hi2 ht'
+            have : i = s.pos := by simp at hi2; omega
+            subst this
+            rw [ht] at ht'
+            cases ht'
+            constructor
+            · intro hk; exact hK s t hw ht (Or.inl hk) k x h
+            · intro hk; exact hK s t hw ht (Or.inr hk) k x h
         have e : ignoreUntil0 ctx pattern (fuel + 1) start s =
             ignoreUntil0 ctx pattern fuel start { s with pos := s.pos + 1 } := by
           simp [ignoreUntil0, h, h2]
         rw [e]
-        exact ignoreUntil0_safe pattern hE r fuel start s0 _ (hp1.wf ctx hw) (by have := hp1.2.1; simp at this ⊢; omega)
+        exact ignoreUntil0_safe pattern hE hK r fuel start s0 _ (hp1.wf ctx hw) (by have := hp1.2.1; simp at this ⊢; omega)
           (by simpa using hr) (h0.trans ctx hp1) (fun s' w l rr => hp s' w (by simp at l; omega) rr)
       | err k2 s' =>
         obtain ⟨rfl, hs'⟩ := take1_err ctx h2
@@ -452,14 +511,14 @@ theorem ignoreUntil0_safe (pattern : P Unit) (hE : AtEof ctx pattern) (r : Nat) 
         · intro k s'' hx; rw [e] at hx; cases hx; exact ⟨rfl, hs' ▸ h0⟩
       | panic e => exact absurd h2 (take1_np ctx s e)
 
-theorem ignoreUntil0_safe' (pattern : P Unit) (hE : AtEof ctx pattern) (fuel start : Nat) (s : St) (hw : WF ctx s)
+theorem ignoreUntil0_safe' (pattern : P Unit) (hE : AtEof ctx pattern) (hK : AtKw ctx pattern) (fuel start : Nat) (s : St) (hw : WF ctx s)
     (hf : ctx.toks.size - s.pos < fuel)
     (hp : ∀ s', WF ctx s' → s.pos ≤ s'.pos → s'.refPos = s.refPos → Safe ctx pattern s') :
     Safe ctx (ignoreUntil0 ctx pattern fuel start) s := by
-  obtain ⟨a, b, c⟩ := ignoreUntil0_safe ctx pattern hE s.refPos fuel start s s hw hf rfl (Post.refl ctx hw) hp
+  obtain ⟨a, b, c⟩ := ignoreUntil0_safe ctx pattern hE hK s.refPos fuel start s s hw hf rfl (Post.refl ctx hw) hp
   exact ⟨a, b, c⟩
 
-theorem ignoreUntil1_safe (pattern : P Unit) (hE : AtEof ctx pattern) (fuel : Nat) (s : St) (hw : WF ctx s)
+theorem ignoreUntil1_safe (pattern : P Unit) (hE : AtEof ctx pattern) (hK : AtKw ctx pattern) (fuel : Nat) (s : St) (hw : WF ctx s)
     (hf : ctx.toks.size - s.pos < fuel)
     (hp : ∀ s', WF ctx s' → s.pos ≤ s'.pos → s'.refPos = s.refPos → Safe ctx pattern s') :
     Safe ctx (ignoreUntil1 ctx pattern fuel) s := by
@@ -469,7 +528,7 @@ theorem ignoreUntil1_safe (pattern : P Unit) (hE : AtEof ctx pattern) (fuel : Na
   | panic e => exact absurd h (hs.np e)
   | err k x =>
     exact safe_congr ctx (q := ignoreUntil0 ctx pattern fuel s.pos) (by simp [ignoreUntil1, h])
-      (ignoreUntil0_safe' ctx pattern hE fuel s.pos s hw hf hp)
+      (ignoreUntil0_safe' ctx pattern hE hK fuel s.pos s hw hf hp)
 
 /-- `Reference::parse` without an old node -/
 theorem refParse_safe {α} {parseT : Option α → P α} {s : St} (hw : WF ctx s)
@@ -591,7 +650,7 @@ theorem noerr_congr {α} {p q : P α} {s : St} (e : p s = q s) (h : NoErr q s) :
 
 /-- a loop whose element always consumes something never stops with the no-progress error -/
 theorem many0_noerr {α} (p : P α) (r : Nat) : ∀ (fuel : Nat) (s : St), WF ctx s → s.refPos = r →
-    (∀ s', WF ctx s' → s.pos ≤ s'.pos → s'.refPos = r → Safe ctx p s' ∧ Strict p s') → NoErr (many0 p fuel) s
+    (∀ s', WF ctx s' → s.pos ≤ s'.pos → s'.refPos = r → SafeK ctx p s' ∧ Strict p s') → NoErr (many0 p fuel) s
   | 0, s, _, _, _ => by intro k x h; cases h
   | fuel + 1, s, hw, hr, hp => by
     intro k x h
@@ -617,7 +676,7 @@ theorem many0_noerr {α} (p : P α) (r : Nat) : ∀ (fuel : Nat) (s : St), WF ct
 
 theorem affected_none {α} (ops : NodeOps α) (inner : P α) : affected ctx ops none inner = inner := rfl
 
-theorem tks_safe (ks : List Kind) (s : St) (hw : WF ctx s) (hks : ∀ k ∈ ks, k ≠ Kind.Eof := by decide) :
+theorem tks_safe (ks : List Kind) (s : St) (hw : WF ctx s) (hks : ∀ k ∈ ks, Plain k := by decide) :
     Safe ctx (altList (ks.map (tk ctx))) s :=
   altList_safe ctx hw _ (by
     intro p hp
@@ -672,7 +731,7 @@ theorem ident_progress {s s' : St} {i : Identifier} (hw : WF ctx s) (h : parseId
 
 /-! ### look-ahead sets -/
 
-theorem identThen_safe (ks : List Kind) (s : St) (hw : WF ctx s) (hks : ∀ k ∈ ks, k ≠ Kind.Eof := by decide) :
+theorem identThen_safe (ks : List Kind) (s : St) (hw : WF ctx s) (hks : ∀ k ∈ ks, Plain k := by decide) :
     Safe ctx (void (Parse.bind (parseIdentifier ctx none) (fun _ => altList (ks.map (tk ctx))))) s :=
   void_safe ctx (bind_safe ctx (ident_safe ctx s hw) (fun s' a h =>
     tks_safe ctx ks s' ((ident_safe ctx s hw).wf_ok ctx hw h) hks))
@@ -825,34 +884,61 @@ theorem la_safeW (n : LAName) (s : St) (hw : WF ctx s) : SafeW ctx (la ctx n) s 
 theorem peekla_safe (n : LAName) (s : St) (hw : WF ctx s) : Safe ctx (peek (la ctx n)) s :=
   peek_safeW ctx hw (la_safeW ctx n s hw)
 
-/-- every look-ahead set accepts the final `Eof` -/
-theorem la_global_atEof (he : EofLast ctx) (fuel d : Nat) (s : St) (hw : WF ctx s) (hq : s.pos + 1 = ctx.toks.size) :
+/-- a token parser succeeds on its own token (no comment in front of it to skip) -/
+theorem tk_here (k : Kind) (s : St) (t : Token) (ht : ctx.toks[s.pos]? = some t) (hk : t.kind = k) (hc : k ≠ Kind.Comment) :
+    ∃ s' t', tk ctx k s = .ok s' t' := by
+  have hcm : comment ctx s = .err false s := by
+    have h1 : take1 ctx s = .ok { s with pos := s.pos + 1 } t := by simp [take1, ht]
+    unfold comment
+    rw [h1]
+    cases hty : t.ty with
+    | Comment c => exact absurd (by simp [Token.kind, hty, TokenType.kind] at hk; exact hk.symm) hc
+    | _ => simp only [hty]
+  have hm : many0 (comment ctx) (loopFuel ctx) s = .ok s [] := by
+    show many0 (comment ctx) (ctx.toks.size + 1 + 1) s = _
+    simp [many0, hcm]
+  refine ⟨{ s with pos := s.pos + 1 }, t, ?_⟩
+  show tag ctx (loopFuel ctx) (fun ty => ty.kind == k) s = _
+  have hk' : (t.ty.kind == k) = true := by simpa [Token.kind] using hk
+  simp [tag, hm, take1, ht, hk']
+
+/-- the innermost synchronisation set succeeds where one of its three tokens is next -/
+theorem la_global_of (fuel d : Nat) (s : St) (hw : WF ctx s)
+    (h : ∃ k, (k = Kind.Proc ∨ k = Kind.Type ∨ k = Kind.Eof) ∧ ∃ s' t, tk ctx k s = .ok s' t) :
     ∃ s' a, lookAhead ctx fuel (d + 1) .global_dec s = .ok s' a := by
   simp only [lookAhead, Gen.lookAheadSet, List.map]
   refine altList_ok _ ?_ ?_
   · intro p hp
     simp only [List.mem_cons, List.not_mem_nil, or_false] at hp
     rcases hp with rfl | rfl | rfl <;> exact (void_safeW ctx (tk_safeW ctx _ _ hw)).np
-  · obtain ⟨s', t, e⟩ := tkEof_at_eof ctx he s hw hq
-    exact ⟨void (tk ctx .Eof), by simp, s', (), by simp [void, pmap, e]⟩
+  · obtain ⟨k, hk, s', t, e⟩ := h
+    rcases hk with rfl | rfl | rfl
+    · exact ⟨void (tk ctx .Proc), by simp, s', (), by simp [void, pmap, e]⟩
+    · exact ⟨void (tk ctx .Type), by simp, s', (), by simp [void, pmap, e]⟩
+    · exact ⟨void (tk ctx .Eof), by simp, s', (), by simp [void, pmap, e]⟩
 
-theorem la_stmt_atEof (he : EofLast ctx) (fuel d : Nat) (s : St) (hw : WF ctx s) (hq : s.pos + 1 = ctx.toks.size) :
+theorem la_stmt_of (fuel d : Nat) (s : St) (hw : WF ctx s)
+    (h : ∃ s' a, lookAhead ctx fuel (d + 1) .global_dec s = .ok s' a) :
     ∃ s' a, lookAhead ctx fuel (d + 2) .stmt s = .ok s' a := by
-  have hs := la_stmt_safeW ctx fuel d s hw
-  obtain ⟨s', a, e⟩ := la_global_atEof ctx he fuel d s hw hq
-  simp only [lookAhead, Gen.lookAheadSet, List.map] at hs e ⊢
-  refine altList_ok _ ?_ ⟨altList [void (tk ctx .Proc), void (tk ctx .Type), void (tk ctx .Eof)], by simp, s', a, e⟩
-  intro p hp
-  simp only [List.mem_cons, List.not_mem_nil, or_false] at hp
-  rcases hp with rfl | rfl | rfl | rfl | rfl | rfl | rfl
-  all_goals first
-    | exact (void_safeW ctx (tk_safeW ctx _ _ hw)).np
-    | exact (identThen_safe ctx [Kind.Assign, Kind.LParen] s hw).np
-    | exact (la_global_safeW ctx fuel d s hw).np
+  obtain ⟨s', a, e⟩ := h
+  have hm : ∀ p ∈ (Gen.lookAheadSet .stmt).map (fun item => match item with
+      | .tok k => void (tk ctx k)
+      | .identThen ks => void (Parse.bind (parseIdentifier ctx none) (fun _ => altList (ks.map (tk ctx))))
+      | .sub m => lookAhead ctx fuel (d + 1) m), ∀ x, p s ≠ .panic x := by
+    intro p hp
+    simp only [Gen.lookAheadSet, List.map, List.mem_cons, List.not_mem_nil, or_false] at hp
+    rcases hp with rfl | rfl | rfl | rfl | rfl | rfl | rfl
+    all_goals first
+      | exact (void_safeW ctx (tk_safeW ctx _ _ hw)).np
+      | exact (identThen_safe ctx [Kind.Assign, Kind.LParen] s hw).np
+      | exact (la_global_safeW ctx fuel d s hw).np
+  rw [lookAhead]
+  exact altList_ok _ hm ⟨lookAhead ctx fuel (d + 1) .global_dec, by simp [Gen.lookAheadSet], s', a, e⟩
 
-theorem la_var_atEof (he : EofLast ctx) (fuel d : Nat) (s : St) (hw : WF ctx s) (hq : s.pos + 1 = ctx.toks.size) :
+theorem la_var_of (fuel d : Nat) (s : St) (hw : WF ctx s)
+    (h : ∃ s' a, lookAhead ctx fuel (d + 1) .global_dec s = .ok s' a) :
     ∃ s' a, lookAhead ctx fuel (d + 3) .var_dec s = .ok s' a := by
-  obtain ⟨s', a, e⟩ := la_stmt_atEof ctx he fuel d s hw hq
+  obtain ⟨s', a, e⟩ := la_stmt_of ctx fuel d s hw h
   have hm : ∀ p ∈ (Gen.lookAheadSet .var_dec).map (fun item => match item with
       | .tok k => void (tk ctx k)
       | .identThen ks => void (Parse.bind (parseIdentifier ctx none) (fun _ => altList (ks.map (tk ctx))))
@@ -866,9 +952,10 @@ theorem la_var_atEof (he : EofLast ctx) (fuel d : Nat) (s : St) (hw : WF ctx s) 
   rw [lookAhead]
   exact altList_ok _ hm ⟨lookAhead ctx fuel (d + 2) .stmt, by simp [Gen.lookAheadSet], s', a, e⟩
 
-theorem la_param_atEof (he : EofLast ctx) (fuel d : Nat) (s : St) (hw : WF ctx s) (hq : s.pos + 1 = ctx.toks.size) :
+theorem la_param_of (fuel d : Nat) (s : St) (hw : WF ctx s)
+    (h : ∃ s' a, lookAhead ctx fuel (d + 1) .global_dec s = .ok s' a) :
     ∃ s' a, lookAhead ctx fuel (d + 4) .param_dec s = .ok s' a := by
-  obtain ⟨s', a, e⟩ := la_var_atEof ctx he fuel d s hw hq
+  obtain ⟨s', a, e⟩ := la_var_of ctx fuel d s hw h
   have hm : ∀ p ∈ (Gen.lookAheadSet .param_dec).map (fun item => match item with
       | .tok k => void (tk ctx k)
       | .identThen ks => void (Parse.bind (parseIdentifier ctx none) (fun _ => altList (ks.map (tk ctx))))
@@ -882,9 +969,10 @@ theorem la_param_atEof (he : EofLast ctx) (fuel d : Nat) (s : St) (hw : WF ctx s
   rw [lookAhead]
   exact altList_ok _ hm ⟨lookAhead ctx fuel (d + 3) .var_dec, by simp [Gen.lookAheadSet], s', a, e⟩
 
-theorem la_arg_atEof (he : EofLast ctx) (fuel d : Nat) (s : St) (hw : WF ctx s) (hq : s.pos + 1 = ctx.toks.size) :
+theorem la_arg_of (fuel d : Nat) (s : St) (hw : WF ctx s)
+    (h : ∃ s' a, lookAhead ctx fuel (d + 1) .global_dec s = .ok s' a) :
     ∃ s' a, lookAhead ctx fuel (d + 5) .arg s = .ok s' a := by
-  obtain ⟨s', a, e⟩ := la_param_atEof ctx he fuel d s hw hq
+  obtain ⟨s', a, e⟩ := la_param_of ctx fuel d s hw h
   have hm : ∀ p ∈ (Gen.lookAheadSet .arg).map (fun item => match item with
       | .tok k => void (tk ctx k)
       | .identThen ks => void (Parse.bind (parseIdentifier ctx none) (fun _ => altList (ks.map (tk ctx))))
@@ -896,23 +984,37 @@ theorem la_arg_atEof (he : EofLast ctx) (fuel d : Nat) (s : St) (hw : WF ctx s) 
   rw [lookAhead]
   exact altList_ok _ hm ⟨lookAhead ctx fuel (d + 4) .param_dec, by simp [Gen.lookAheadSet], s', a, e⟩
 
+/-- every synchronisation set accepts each of the three tokens of the innermost one -/
+theorem la_of (n : LAName) (s : St) (hw : WF ctx s)
+    (h : ∃ k, (k = Kind.Proc ∨ k = Kind.Type ∨ k = Kind.Eof) ∧ ∃ s' t, tk ctx k s = .ok s' t) :
+    ∃ s' a, la ctx n s = .ok s' a := by
+  cases n with
+  | global_dec => exact la_global_of ctx 0 7 s hw h
+  | stmt => exact la_stmt_of ctx 0 6 s hw (la_global_of ctx 0 6 s hw h)
+  | var_dec => exact la_var_of ctx 0 5 s hw (la_global_of ctx 0 5 s hw h)
+  | param_dec => exact la_param_of ctx 0 4 s hw (la_global_of ctx 0 4 s hw h)
+  | arg => exact la_arg_of ctx 0 3 s hw (la_global_of ctx 0 3 s hw h)
+
 /-- **every synchronisation set accepts the final `Eof`**: no recovery skips it -/
 theorem peekla_atEof (n : LAName) : AtEof ctx (peek (la ctx n)) := by
   intro he s hw hq k x hx
-  have hok : ∃ s' a, la ctx n s = .ok s' a := by
-    cases n with
-    | global_dec => exact la_global_atEof ctx he 0 7 s hw hq
-    | stmt => exact la_stmt_atEof ctx he 0 6 s hw hq
-    | var_dec => exact la_var_atEof ctx he 0 5 s hw hq
-    | param_dec => exact la_param_atEof ctx he 0 4 s hw hq
-    | arg => exact la_arg_atEof ctx he 0 3 s hw hq
-  obtain ⟨s', a, e⟩ := hok
+  obtain ⟨s', a, e⟩ := la_of ctx n s hw ⟨Kind.Eof, Or.inr (Or.inr rfl), tkEof_at_eof ctx he s hw hq⟩
+  simp [peek, e] at hx
+
+/-- **every synchronisation set accepts `proc` and `type`**: no recovery skips a declaration keyword -/
+theorem peekla_atKw (n : LAName) : AtKw ctx (peek (la ctx n)) := by
+  intro s t hw ht hk k x hx
+  have h : ∃ k, (k = Kind.Proc ∨ k = Kind.Type ∨ k = Kind.Eof) ∧ ∃ s' t', tk ctx k s = .ok s' t' := by
+    rcases hk with hk | hk
+    · exact ⟨Kind.Proc, Or.inl rfl, tk_here ctx _ s t ht hk (by decide)⟩
+    · exact ⟨Kind.Type, Or.inr (Or.inl rfl), tk_here ctx _ s t ht hk (by decide)⟩
+  obtain ⟨s', a, e⟩ := la_of ctx n s hw h
   simp [peek, e] at hx
 
 /-! ### expressions -/
 
 theorem tkbind_safe {β} (k : Kind) (f : Token → P β) (s : St) (hw : WF ctx s)
-    (hf : ∀ s' t, WF ctx s' → s.pos < s'.pos → s'.refPos = s.refPos → Safe ctx (f t) s') (hk : k ≠ Kind.Eof := by decide) :
+    (hf : ∀ s' t, WF ctx s' → s.pos < s'.pos → s'.refPos = s.refPos → Safe ctx (f t) s') (hk : Plain k := by decide) :
     Safe ctx (Parse.bind (tk ctx k) f) s :=
   bind_safe ctx (tk_safe ctx k s hw hk) (fun s' t h =>
     hf s' t ((tk_safe ctx k s hw hk).wf_ok ctx hw h) (tk_ok ctx hw h).1 ((tk_safe ctx k s hw hk).ok _ _ h).2.2.1)
@@ -946,7 +1048,7 @@ theorem strict_ident (s : St) (hw : WF ctx s) : Strict (parseIdentifier ctx none
 
 /-- a keyword followed by anything safe: safe, and it consumes the keyword -/
 theorem tkbind_both {β} (k : Kind) (f : Token → P β) (s : St) (hw : WF ctx s)
-    (hf : ∀ s' t, WF ctx s' → s.pos < s'.pos → s'.refPos = s.refPos → Safe ctx (f t) s') (hk : k ≠ Kind.Eof := by decide) :
+    (hf : ∀ s' t, WF ctx s' → s.pos < s'.pos → s'.refPos = s.refPos → Safe ctx (f t) s') (hk : Plain k := by decide) :
     Safe ctx (Parse.bind (tk ctx k) f) s ∧ Strict (Parse.bind (tk ctx k) f) s := by
   have ht := tk_safe ctx k s hw hk
   have hf' : ∀ s' t, tk ctx k s = .ok s' t → Safe ctx (f t) s' := fun s' t h =>
@@ -964,7 +1066,7 @@ theorem docComments_safe (s : St) (hw : WF ctx s) : Safe ctx (docComments ctx) s
 /-- documentation comments, a keyword, then anything safe -/
 theorem doctk_both {β} (k : Kind) (tail : List (List Char) → Token → P β) (s : St) (hw : WF ctx s)
     (hf : ∀ s2 doc t, WF ctx s2 → s.pos < s2.pos → s2.refPos = s.refPos → Safe ctx (tail doc t) s2)
-    (hk : k ≠ Kind.Eof := by decide) :
+    (hk : Plain k := by decide) :
     Safe ctx (Parse.bind (docComments ctx) (fun doc => Parse.bind (tk ctx k) (tail doc))) s ∧
     Strict (Parse.bind (docComments ctx) (fun doc => Parse.bind (tk ctx k) (tail doc))) s := by
   have hd := docComments_safe ctx s hw
@@ -1015,11 +1117,10 @@ theorem opLoop_safe (ops : List Kind) (hops : ∀ k ∈ ops, ∃ op, opOfKind k 
     (∀ k s', opLoop ctx ops rhs fuel e s = .err k s' → k = false ∧ Post ctx s0 s')
   | 0, _, _, s, _, hf, _, _, _ => by omega
   | fuel + 1, e, s0, s, hw, hf, hr, h0, hrhs => by
-    have hne : ∀ k ∈ ops, k ≠ Kind.Eof := by
-      intro k hk he
+    have hne : ∀ k ∈ ops, Plain k := by
+      intro k hk
       obtain ⟨op, h⟩ := hops k hk
-      subst he
-      simp [opOfKind] at h
+      refine ⟨?_, ?_, ?_⟩ <;> intro he <;> subst he <;> simp [opOfKind] at h
     have ht := tks_safe ctx ops s hw hne
     cases h : altList (ops.map (tk ctx)) s with
     | ok s1 t =>
@@ -1360,7 +1461,7 @@ theorem argument_safe (s : St) (hw : WF ctx s) : Safe ctx (parseArgument ctx non
     exact bind_safe ctx h1 (fun s2 _ e2 => pure_safe ctx _ s2 (h1.wf_ok ctx w1 e2))
   · refine pmap_safe ctx _ (info_safe' ctx hw (fun s0 e0 r0 w0 => ?_))
     exact safe_congr ctx (q := ignoreUntil0 ctx (peek (la ctx .arg)) (loopFuel ctx) s0.pos) rfl
-      (ignoreUntil0_safe' ctx _ (peekla_atEof ctx .arg) _ _ s0 w0 (loopFuel_ok ctx s0 w0) (fun s' w _ _ => peekla_safe ctx .arg s' w))
+      (ignoreUntil0_safe' ctx _ (peekla_atEof ctx .arg) (peekla_atKw ctx .arg) _ _ s0 w0 (loopFuel_ok ctx s0 w0) (fun s' w _ _ => peekla_safe ctx .arg s' w))
 
 theorem callInner_safe (s : St) (hw : WF ctx s) :
     Safe ctx (callInner ctx none none) s ∧ Strict (callInner ctx none none) s := by
@@ -1434,7 +1535,7 @@ theorem stmtParseError_safe (s : St) (hw : WF ctx s) : Safe ctx (stmtParseError 
     have hd := docComments_safe ctx s0 w0
     refine bind_safe ctx hd (fun s1 _ e1 => ?_)
     have w1 := hd.wf_ok ctx w0 e1
-    exact ignoreUntil1_safe ctx _ (peekla_atEof ctx .stmt) _ s1 w1 (loopFuel_ok ctx s1 w1) (fun s' w _ _ => peekla_safe ctx .stmt s' w)
+    exact ignoreUntil1_safe ctx _ (peekla_atEof ctx .stmt) (peekla_atKw ctx .stmt) _ s1 w1 (loopFuel_ok ctx s1 w1) (fun s' w _ _ => peekla_safe ctx .stmt s' w)
   unfold stmtParseError
   cases h : (pmap (fun (p : List Token × AstInfo) =>
       Stmt.error { p.2 with errors := p.2.errors ++
@@ -1562,11 +1663,192 @@ theorem ssafe : ∀ F, SSafe ctx F
 theorem stmt_safe (s : St) (hw : WF ctx s) : Safe ctx (parseStmt ctx (stmtFuel ctx) none) s :=
   (ssafe ctx _).stmt s hw (by have := hw.2; simp only [stmtFuel]; omega)
 
+/-! ### declaration level: a declaration consumes its own keyword -/
+
+theorem safeK_of_ok {α} {p : P α} {s s' : St} {a : α} (e : p s = .ok s' a) (h : PostK ctx s s') : SafeK ctx p s := by
+  refine ⟨?_, ?_, ?_⟩
+  · intro x hx; rw [e] at hx; cases hx
+  · intro s'' b hx; rw [e] at hx; cases hx; exact h
+  · intro k s'' hx; rw [e] at hx; cases hx
+
+theorem safeK_congr {α} {p q : P α} {s : St} (e : p s = q s) (h : SafeK ctx q s) : SafeK ctx p s := by
+  refine ⟨?_, ?_, ?_⟩
+  · intro x hx; rw [e] at hx; exact h.np x hx
+  · intro s'' b hx; rw [e] at hx; exact h.ok _ _ hx
+  · intro k s'' hx; rw [e] at hx; exact h.er _ _ hx
+
+theorem take1_postK {s s' : St} {t : Token} (h : take1 ctx s = .ok s' t) (hk : t.kind ≠ Kind.Eof) : PostK ctx s s' := by
+  obtain ⟨rfl, ht⟩ := take1_ok ctx h
+  have hlt : s.pos < ctx.toks.size := (Array.getElem?_eq_some_iff.mp ht).1
+  refine ⟨Nat.le_succ _, hlt, rfl, ?_⟩
+  intro he _
+  obtain ⟨tl, htl, hkl⟩ := he.last
+  show s.pos + 1 < ctx.toks.size
+  by_cases hq : s.pos + 1 = ctx.toks.size
+  · have : s.pos = ctx.toks.size - 1 := by omega
+    rw [← this, ht] at htl
+    cases htl
+    exact absurd hkl hk
+  · omega
+
+/-- a token parser for any kind but `Eof` (also the declaration keywords) -/
+theorem tk_safeK (k : Kind) (s : St) (hw : WF ctx s) (hk : k ≠ Kind.Eof := by decide) : SafeK ctx (tk ctx k) s := by
+  show SafeK ctx (tag ctx (loopFuel ctx) (fun ty => ty.kind == k)) s
+  have hf := loopFuel_ok ctx s hw
+  have hm := comments_safe ctx (loopFuel ctx) s hw hf
+  cases h : many0 (comment ctx) (loopFuel ctx) s with
+  | ok s1 cs =>
+    have hp1 := hm.ok _ _ h
+    cases h2 : take1 ctx s1 with
+    | ok s2 t =>
+      by_cases hpd : (t.ty.kind == k) = true
+      · have hne : t.kind ≠ Kind.Eof := by
+          have : t.ty.kind = k := by simpa using hpd
+          intro he; exact hk (this ▸ he)
+        exact safeK_of_ok ctx (s' := s2) (a := t) (by simp [tag, h, h2, hpd]) (hp1.k.trans ctx (take1_postK ctx h2 hne))
+      · exact (safe_of_err ctx (s' := s) (by simp [tag, h, h2, hpd]) (Post.refl ctx hw)).k
+    | err k2 s' =>
+      obtain ⟨rfl, rfl⟩ := take1_err ctx h2
+      exact (safe_of_err ctx (s' := s') (by simp [tag, h, h2]) hp1).k
+    | panic e => exact absurd h2 (take1_np ctx s1 e)
+  | err k2 s' =>
+    obtain ⟨rfl, hp⟩ := hm.er _ _ h
+    exact (safe_of_err ctx (s' := s') (by simp [tag, h]) hp).k
+  | panic e => exact absurd h (hm.np e)
+
+theorem bind_safeK {α β} {p : P α} {f : α → P β} {s : St} (hp : SafeK ctx p s)
+    (hf : ∀ s' a, p s = .ok s' a → SafeK ctx (f a) s') : SafeK ctx (Parse.bind p f) s := by
+  cases h : p s with
+  | ok s' a =>
+    have hs := hf s' a h
+    have e : Parse.bind p f s = f a s' := by simp [Parse.bind, h]
+    have h0 := hp.ok s' a h
+    refine ⟨?_, ?_, ?_⟩
+    · intro x hx; rw [e] at hx; exact hs.np x hx
+    · intro s'' b hx; rw [e] at hx; exact h0.trans ctx (hs.ok _ _ hx)
+    · intro k s'' hx; rw [e] at hx
+      exact ⟨(hs.er _ _ hx).1, h0.trans ctx (hs.er _ _ hx).2⟩
+  | err k s' =>
+    obtain ⟨rfl, hpost⟩ := hp.er _ _ h
+    have e : Parse.bind p f s = .err false s' := by simp [Parse.bind, h]
+    refine ⟨?_, ?_, ?_⟩
+    · intro x hx; rw [e] at hx; cases hx
+    · intro s'' b hx; rw [e] at hx; cases hx
+    · intro k s'' hx; rw [e] at hx; cases hx; exact ⟨rfl, hpost⟩
+  | panic e => exact absurd h (hp.np e)
+
+theorem pmap_safeK {α β} {p : P α} (f : α → β) {s : St} (hp : SafeK ctx p s) : SafeK ctx (pmap f p) s := by
+  cases h : p s with
+  | ok s' a => exact safeK_of_ok ctx (a := f a) (by simp [pmap, h]) (hp.ok _ _ h)
+  | err k s' =>
+    obtain ⟨rfl, hpost⟩ := hp.er _ _ h
+    have e : pmap f p s = .err false s' := by simp [pmap, h]
+    refine ⟨?_, ?_, ?_⟩
+    · intro x hx; rw [e] at hx; cases hx
+    · intro s'' b hx; rw [e] at hx; cases hx
+    · intro k s'' hx; rw [e] at hx; cases hx; exact ⟨rfl, hpost⟩
+  | panic e => exact absurd h (hp.np e)
+
+theorem alt2_safeK {α} {p q : P α} {s : St} (hp : SafeK ctx p s) (hq : SafeK ctx q s) : SafeK ctx (alt2 p q) s := by
+  cases h : p s with
+  | ok s' a => exact safeK_of_ok ctx (a := a) (by simp [alt2, h]) (hp.ok _ _ h)
+  | err k s' => exact safeK_congr ctx (q := q) (by simp [alt2, h]) hq
+  | panic e => exact absurd h (hp.np e)
+
+theorem info_safeK {α} {p : P α} {s : St} (hw : WF ctx s) (hp : SafeK ctx p { s with errBuf := [] }) :
+    SafeK ctx (info p) s := by
+  have h0 : ¬ s.pos < s.refPos := by have := hw.1; omega
+  cases h : p { s with errBuf := [] } with
+  | ok s' a =>
+    have hpost := hp.ok _ _ h
+    have h1 : ¬ s'.pos < s.refPos := by have := hpost.1; have := hw.1; simp at *; omega
+    exact safeK_of_ok ctx (s' := { s' with errBuf := s.errBuf })
+      (a := (a, { range := ⟨s.pos - s.refPos, s'.pos - s.refPos⟩, errors := s'.errBuf }))
+      (by simp [info, h0, h, h1]) hpost
+  | err k s' =>
+    obtain ⟨rfl, hpost⟩ := hp.er _ _ h
+    have e : info p s = .err false { s' with errBuf := s.errBuf } := by simp [info, h0, h]
+    refine ⟨?_, ?_, ?_⟩
+    · intro x hx; rw [e] at hx; cases hx
+    · intro s'' b hx; rw [e] at hx; cases hx
+    · intro k s'' hx; rw [e] at hx; cases hx; exact ⟨rfl, hpost⟩
+  | panic e => exact absurd h (hp.np e)
+
+theorem refParse_safeK {α} {parseT : Option α → P α} {s : St} (hw : WF ctx s)
+    (hp : SafeK ctx (parseT none) { s with refPos := s.pos }) : SafeK ctx (refParse parseT none) s := by
+  have h0 : ¬ s.pos < s.refPos := by have := hw.1; omega
+  cases h : parseT none { s with refPos := s.pos } with
+  | ok s' a =>
+    have hpost := hp.ok _ _ h
+    exact safeK_of_ok ctx (s' := { s' with refPos := s.refPos }) (a := ⟨a, s.pos - s.refPos⟩)
+      (by simp [refParse, h0, h]) ⟨hpost.1, hpost.2.1, rfl, hpost.2.2.2⟩
+  | err k s' =>
+    obtain ⟨rfl, hpost⟩ := hp.er _ _ h
+    have e : refParse parseT none s = .err false { s' with refPos := s.refPos, incRefs := s'.incRefs.dropLast } := by
+      simp [refParse, h0, h]
+    refine ⟨?_, ?_, ?_⟩
+    · intro x hx; rw [e] at hx; cases hx
+    · intro s'' b hx; rw [e] at hx; cases hx
+    · intro k s'' hx; rw [e] at hx; cases hx; exact ⟨rfl, hpost.1, hpost.2.1, rfl, hpost.2.2.2⟩
+  | panic e => exact absurd h (hp.np e)
+
+theorem many0_safeK {α} (p : P α) (r : Nat) : ∀ (fuel : Nat) (s : St), WF ctx s → ctx.toks.size - s.pos < fuel → s.refPos = r →
+    (∀ s', WF ctx s' → s.pos ≤ s'.pos → s'.refPos = r → SafeK ctx p s') → SafeK ctx (many0 p fuel) s
+  | 0, s, _, hf, _, _ => by omega
+  | fuel + 1, s, hw, hf, hr, hp => by
+    have h0 := hp s hw (Nat.le_refl _) hr
+    cases h : p s with
+    | err k s' => exact safeK_of_ok ctx (s' := s) (a := []) (by simp [many0, h]) (PostK.refl ctx hw)
+    | panic e => exact absurd h (h0.np e)
+    | ok s' a =>
+      have hpost := h0.ok s' a h
+      by_cases hq : s'.pos = s.pos
+      · have e : many0 p (fuel + 1) s = .err false s := by simp [many0, h, hq]
+        refine ⟨?_, ?_, ?_⟩
+        · intro x hx; rw [e] at hx; cases hx
+        · intro s'' b hx; rw [e] at hx; cases hx
+        · intro k s'' hx; rw [e] at hx; cases hx; exact ⟨rfl, PostK.refl ctx hw⟩
+      · have hw' : WF ctx s' := hpost.wf ctx hw
+        have hlt : s.pos < s'.pos := by have := hpost.1; omega
+        have ih := many0_safeK p r fuel s' hw' (by have := hw'.2; omega) (by rw [hpost.2.2.1, hr])
+          (fun s2 w2 l2 r2 => hp s2 w2 (Nat.le_trans hpost.1 l2) r2)
+        have hb : (s'.pos == s.pos) = false := by simpa using hq
+        cases h2 : many0 p fuel s' with
+        | ok s'' as => exact safeK_of_ok ctx (a := a :: as) (by simp [many0, h, hb, h2]) (hpost.trans ctx (ih.ok _ _ h2))
+        | err k s'' =>
+          obtain ⟨rfl, hp2⟩ := ih.er _ _ h2
+          have e : many0 p (fuel + 1) s = .err false s'' := by simp [many0, h, hb, h2]
+          refine ⟨?_, ?_, ?_⟩
+          · intro x hx; rw [e] at hx; cases hx
+          · intro s3 b hx; rw [e] at hx; cases hx
+          · intro k s3 hx; rw [e] at hx; cases hx; exact ⟨rfl, hpost.trans ctx hp2⟩
+        | panic x => exact absurd h2 (ih.np x)
+
+/-- documentation comments, a declaration keyword, then anything safe -/
+theorem doctk_bothK {β} (k : Kind) (tail : List (List Char) → Token → P β) (s : St) (hw : WF ctx s)
+    (hf : ∀ s2 doc t, WF ctx s2 → s.pos < s2.pos → s2.refPos = s.refPos → Safe ctx (tail doc t) s2)
+    (hk : k ≠ Kind.Eof := by decide) :
+    SafeK ctx (Parse.bind (docComments ctx) (fun doc => Parse.bind (tk ctx k) (tail doc))) s ∧
+    Strict (Parse.bind (docComments ctx) (fun doc => Parse.bind (tk ctx k) (tail doc))) s := by
+  have hd := docComments_safe ctx s hw
+  have hb : ∀ s1 doc, docComments ctx s = .ok s1 doc →
+      SafeK ctx (Parse.bind (tk ctx k) (tail doc)) s1 ∧ Strict (Parse.bind (tk ctx k) (tail doc)) s1 := by
+    intro s1 doc e1
+    have w1 := hd.wf_ok ctx hw e1
+    have p1 := hd.ok _ _ e1
+    have ht := tk_safeK ctx k s1 w1 hk
+    have hf' : ∀ s2 t, tk ctx k s1 = .ok s2 t → Safe ctx (tail doc t) s2 := fun s2 t h =>
+      hf s2 doc t ((ht.ok _ _ h).wf ctx w1) (by have := p1.1; have := (tk_ok ctx w1 h).1; omega)
+        (by rw [(ht.ok _ _ h).2.2.1, p1.2.2.1])
+    exact ⟨bind_safeK ctx ht (fun s2 t h => (hf' s2 t h).k), strict_bind_left ctx (strict_tk ctx k s1 w1) hf'⟩
+  exact ⟨bind_safeK ctx hd.k (fun s1 doc e1 => (hb s1 doc e1).1),
+    strict_bind_right ctx hd (fun s1 doc e1 => (hb s1 doc e1).2)⟩
+
 /-! ### declarations -/
 
 /-- the `=` / `:` alternatives with their confusable spellings -/
 theorem confAlt_safe (k k1 k2 : Kind) (m1 m2 : Msg) (s : St) (hw : WF ctx s)
-    (hk : k ≠ Kind.Eof) (hk1 : k1 ≠ Kind.Eof) (hk2 : k2 ≠ Kind.Eof) :
+    (hk : Plain k) (hk1 : Plain k1) (hk2 : Plain k2) :
     Safe ctx (altList [tk ctx k, confusable (tk ctx k1) m1, confusable (tk ctx k2) m2]) s := by
   refine altList_safe ctx hw _ ?_
   intro p hp
@@ -1578,7 +1860,7 @@ theorem confAlt_safe (k k1 k2 : Kind) (m1 m2 : Msg) (s : St) (hw : WF ctx s)
 
 /-- name, `=`/`:`, type, `;` — the common tail of type and variable declarations -/
 theorem declTail_safe (k k1 k2 : Kind) (m1 m2 m3 : Msg) (doc : List (List Char)) (s : St) (hw : WF ctx s)
-    (hk : k ≠ Kind.Eof) (hk1 : k1 ≠ Kind.Eof) (hk2 : k2 ≠ Kind.Eof) :
+    (hk : Plain k) (hk1 : Plain k1) (hk2 : Plain k2) :
     Safe ctx (Parse.bind (Parse.expect none (parseIdentifier ctx) (.ExpectedToken (chars "identifier"))) (fun name =>
       Parse.bind (Parse.expect none (inc (altList [tk ctx k, confusable (tk ctx k1) m1, confusable (tk ctx k2) m2])) m3) (fun _ =>
       Parse.bind (Parse.expect none (refTypeExpr ctx) (.ExpectedToken (chars "type expression"))) (fun te =>
@@ -1597,13 +1879,13 @@ theorem declTail_safe (k k1 k2 : Kind) (m1 m2 m3 : Msg) (doc : List (List Char))
   exact bind_safe ctx h4 (fun s5 _ e5 => pure_safe ctx _ s5 (h4.wf_ok ctx w4 e5))
 
 theorem typeDeclInner_safe (s : St) (hw : WF ctx s) :
-    Safe ctx (typeDeclInner ctx none none) s ∧ Strict (typeDeclInner ctx none none) s := by
+    SafeK ctx (typeDeclInner ctx none none) s ∧ Strict (typeDeclInner ctx none none) s := by
   unfold typeDeclInner
-  exact doctk_both ctx .Type _ s hw (fun s2 doc _ w2 _ _ => declTail_safe ctx _ _ _ _ _ _ doc s2 w2 (by decide) (by decide) (by decide))
+  exact doctk_bothK ctx .Type _ s hw (fun s2 doc _ w2 _ _ => declTail_safe ctx _ _ _ _ _ _ doc s2 w2 (by decide) (by decide) (by decide))
 
-theorem typeDecl_safe (s : St) (hw : WF ctx s) : Safe ctx (parseTypeDecl ctx none) s := by
-  show Safe ctx (pmap _ (info (typeDeclInner ctx none none))) s
-  exact pmap_safe ctx _ (info_safe' ctx hw (fun s0 _ _ w0 => (typeDeclInner_safe ctx s0 w0).1))
+theorem typeDecl_safe (s : St) (hw : WF ctx s) : SafeK ctx (parseTypeDecl ctx none) s := by
+  show SafeK ctx (pmap _ (info (typeDeclInner ctx none none))) s
+  exact pmap_safeK ctx _ (info_safeK ctx hw (typeDeclInner_safe ctx _ (wf_errBuf ctx hw [])).1)
 
 theorem varDeclInner_safe (s : St) (hw : WF ctx s) :
     Safe ctx (varDeclInner ctx none none) s ∧ Strict (varDeclInner ctx none none) s := by
@@ -1615,7 +1897,7 @@ theorem varDecl_safe (s : St) (hw : WF ctx s) : Safe ctx (parseVarDecl ctx none)
   refine alt2_safe ctx ?_ ?_
   · exact pmap_safe ctx _ (info_safe' ctx hw (fun s0 _ _ w0 => (varDeclInner_safe ctx s0 w0).1))
   · refine pmap_safe ctx _ (info_safe' ctx hw (fun s0 _ _ w0 => ?_))
-    exact ignoreUntil1_safe ctx _ (peekla_atEof ctx .var_dec) _ s0 w0 (loopFuel_ok ctx s0 w0) (fun s' w _ _ => peekla_safe ctx .var_dec s' w)
+    exact ignoreUntil1_safe ctx _ (peekla_atEof ctx .var_dec) (peekla_atKw ctx .var_dec) _ s0 w0 (loopFuel_ok ctx s0 w0) (fun s' w _ _ => peekla_safe ctx .var_dec s' w)
 
 theorem paramDeclInner_safe (s : St) (hw : WF ctx s) : Safe ctx (paramDeclInner ctx none none) s := by
   unfold paramDeclInner
@@ -1647,12 +1929,12 @@ theorem paramDecl_safe (s : St) (hw : WF ctx s) : Safe ctx (parseParamDecl ctx n
   · exact pmap_safe ctx _ (info_safe' ctx hw (fun s0 _ _ w0 => paramDeclInner_safe ctx s0 w0))
   · refine pmap_safe ctx _ (info_safe' ctx hw (fun s0 _ _ w0 => ?_))
     exact safe_congr ctx (q := ignoreUntil0 ctx (peek (la ctx .param_dec)) (loopFuel ctx) s0.pos) rfl
-      (ignoreUntil0_safe' ctx _ (peekla_atEof ctx .param_dec) _ _ s0 w0 (loopFuel_ok ctx s0 w0) (fun s' w _ _ => peekla_safe ctx .param_dec s' w))
+      (ignoreUntil0_safe' ctx _ (peekla_atEof ctx .param_dec) (peekla_atKw ctx .param_dec) _ _ s0 w0 (loopFuel_ok ctx s0 w0) (fun s' w _ _ => peekla_safe ctx .param_dec s' w))
 
 theorem procDeclInner_safe (s : St) (hw : WF ctx s) :
-    Safe ctx (procDeclInner ctx none) s ∧ Strict (procDeclInner ctx none) s := by
+    SafeK ctx (procDeclInner ctx none) s ∧ Strict (procDeclInner ctx none) s := by
   unfold procDeclInner
-  refine doctk_both ctx .Proc _ s hw (fun s2 doc _ w2 _ _ => ?_)
+  refine doctk_bothK ctx .Proc _ s hw (fun s2 doc _ w2 _ _ => ?_)
   have h2 := (expect_safe ctx (.ExpectedToken (chars "identifier")) w2 (parser := parseIdentifier ctx) (ident_safe ctx s2 w2)).1
   refine bind_safe ctx h2 (fun s3 _ e3 => ?_)
   have w3 := h2.wf_ok ctx w2 e3
@@ -1687,80 +1969,57 @@ theorem procDeclInner_safe (s : St) (hw : WF ctx s) :
   have h9 := expectInc_safe ctx (tk ctx .RCurly) (.MissingClosing '}') s9 w9 (tk_safe ctx _ s9 w9)
   exact bind_safe ctx h9 (fun s10 _ e10 => pure_safe ctx _ s10 (h9.wf_ok ctx w9 e10))
 
-theorem procDecl_safe (s : St) (hw : WF ctx s) : Safe ctx (parseProcDecl ctx none) s := by
-  show Safe ctx (pmap _ (info (procDeclInner ctx none))) s
-  exact pmap_safe ctx _ (info_safe' ctx hw (fun s0 _ _ w0 => (procDeclInner_safe ctx s0 w0).1))
+theorem procDecl_safe (s : St) (hw : WF ctx s) : SafeK ctx (parseProcDecl ctx none) s := by
+  show SafeK ctx (pmap _ (info (procDeclInner ctx none))) s
+  exact pmap_safeK ctx _ (info_safeK ctx hw (procDeclInner_safe ctx _ (wf_errBuf ctx hw [])).1)
 
-theorem globalDecl_safe (s : St) (hw : WF ctx s) : Safe ctx (parseGlobalDecl ctx none) s := by
-  show Safe ctx (altList [pmap GlobalDecl.type (parseTypeDecl ctx none), pmap GlobalDecl.proc (parseProcDecl ctx none),
+theorem globalDecl_safe (s : St) (hw : WF ctx s) : SafeK ctx (parseGlobalDecl ctx none) s := by
+  show SafeK ctx (altList [pmap GlobalDecl.type (parseTypeDecl ctx none), pmap GlobalDecl.proc (parseProcDecl ctx none),
     pmap _ (info (ignoreUntil1 ctx (peek (la ctx .global_dec)) (loopFuel ctx)))]) s
-  refine altList_safe ctx hw _ ?_
-  intro p hp
-  simp only [List.mem_cons, List.not_mem_nil, or_false] at hp
-  rcases hp with rfl | rfl | rfl
-  · exact pmap_safe ctx _ (typeDecl_safe ctx s hw)
-  · exact pmap_safe ctx _ (procDecl_safe ctx s hw)
-  · refine pmap_safe ctx _ (info_safe' ctx hw (fun s0 _ _ w0 => ?_))
-    exact ignoreUntil1_safe ctx _ (peekla_atEof ctx .global_dec) _ s0 w0 (loopFuel_ok ctx s0 w0) (fun s' w _ _ => peekla_safe ctx .global_dec s' w)
+  simp only [altList]
+  refine alt2_safeK ctx (pmap_safeK ctx _ (typeDecl_safe ctx s hw)) (alt2_safeK ctx (pmap_safeK ctx _ (procDecl_safe ctx s hw)) ?_)
+  refine (pmap_safe ctx _ (info_safe' ctx hw (fun s0 _ _ w0 => ?_))).k
+  exact ignoreUntil1_safe ctx _ (peekla_atEof ctx .global_dec) (peekla_atKw ctx .global_dec) _ s0 w0 (loopFuel_ok ctx s0 w0)
+    (fun s' w _ _ => peekla_safe ctx .global_dec s' w)
 
-theorem bind_safeW {α β} {p : P α} {f : α → P β} {s : St} (hp : Safe ctx p s)
-    (hf : ∀ s' a, p s = .ok s' a → SafeW ctx (f a) s') : SafeW ctx (Parse.bind p f) s := by
-  cases h : p s with
-  | ok s' a =>
-    have hs := hf s' a h
-    have e : Parse.bind p f s = f a s' := by simp [Parse.bind, h]
-    have h0 := hp.ok s' a h
-    refine ⟨?_, ?_, ?_⟩
-    · intro x hx; rw [e] at hx; exact hs.np x hx
-    · intro s'' b hx; rw [e] at hx
-      have := hs.ok _ _ hx
-      exact ⟨Nat.le_trans h0.1 this.1, this.2.1, this.2.2.trans h0.2.2.1⟩
-    · intro k s'' hx; rw [e] at hx
-      exact ⟨(hs.er _ _ hx).1, h0.trans ctx (hs.er _ _ hx).2⟩
-  | err k s' =>
-    obtain ⟨rfl, hpost⟩ := hp.er _ _ h
-    exact (safe_of_err ctx (by simp [Parse.bind, h]) hpost).w
-  | panic e => exact absurd h (hp.np e)
-
-/-- the end of `Program::parse`: the final `Eof`, which must be the last token -/
-theorem eofTail_safeW {α} (r : α) (s : St) (hw : WF ctx s) :
-    SafeW ctx (Parse.bind (allConsuming ctx (tk ctx .Eof)) (fun _ => pure' r)) s := by
-  have ht := tk_safeW ctx .Eof s hw
-  cases h : tk ctx .Eof s with
-  | ok s1 t =>
-    have hp1 := ht.ok _ _ h
-    by_cases hq : s1.pos = ctx.toks.size
-    · exact safeW_of_ok ctx (s' := s1) (a := r) (by simp [Parse.bind, allConsuming, h, hq, pure']) hp1
-    · have e : Parse.bind (allConsuming ctx (tk ctx .Eof)) (fun _ => pure' r) s = .err false s1 := by
-        simp [Parse.bind, allConsuming, h, hq]
-      obtain ⟨hlt, hk, htok⟩ := tk_ok ctx hw h
-      refine ⟨?_, ?_, ?_⟩
-      · intro x hx; rw [e] at hx; cases hx
-      · intro s'' b hx; rw [e] at hx; cases hx
-      · intro k s'' hx; rw [e] at hx; cases hx
-        refine ⟨rfl, hp1.1, hp1.2.1, hp1.2.2, ?_⟩
-        intro he _
-        have := he.only _ _ htok hk
-        omega
-  | err k x =>
-    obtain ⟨rfl, hpost⟩ := ht.er _ _ h
-    exact (safe_of_err ctx (by simp [Parse.bind, allConsuming, h]) hpost).w
-  | panic e => exact absurd h (ht.np e)
+/-- the declaration loop -/
+theorem declLoop_safe (s : St) (hw : WF ctx s) :
+    SafeK ctx (many0 (refParse (parseGlobalDecl ctx) none) (loopFuel ctx)) s :=
+  many0_safeK ctx _ s.refPos _ s hw (loopFuel_ok ctx s hw) rfl
+    (fun s' w _ _ => refParse_safeK ctx w (globalDecl_safe ctx _ (wf_reref ctx w)))
 
 /-- **The parser never panics**: `Program::parse` on any token array, from its start -/
-theorem program_safe : SafeW ctx (parseProgram ctx none) { pos := 0 } := by
+theorem program_np : ∀ e, parseProgram ctx none { pos := 0 } ≠ .panic e := by
+  intro e he
   have hw : WF ctx ({ pos := 0 } : St) := ⟨Nat.le_refl _, Nat.zero_le _⟩
-  show SafeW ctx (pmap _ (Parse.bind (info (many ctx (fun (g : GlobalDecl) => g.info.range) (parseGlobalDecl ctx) (loopFuel ctx) none))
-    (fun r => Parse.bind (allConsuming ctx (tk ctx .Eof)) (fun _ => pure' r)))) _
-  refine pmap_safeW ctx _ ?_
-  have h0 := info_safe' ctx hw (p := many ctx (fun (g : GlobalDecl) => g.info.range) (parseGlobalDecl ctx) (loopFuel ctx) none)
-    (fun s0 _ _ w0 => many_safe ctx _ _ s0 w0 (fun s' w _ => globalDecl_safe ctx _ (wf_reref ctx w)))
-  refine bind_safeW ctx h0 (fun s1 r e1 => ?_)
-  exact eofTail_safeW ctx r s1 (h0.wf_ok ctx hw e1)
+  have hL := info_safeK ctx hw (p := many ctx (fun (g : GlobalDecl) => g.info.range) (parseGlobalDecl ctx) (loopFuel ctx) none)
+    (safeK_congr ctx (many_none ctx _ _ _ _) (declLoop_safe ctx _ hw))
+  have he' : pmap (fun (p : List (Ref GlobalDecl) × AstInfo) => ({ decls := p.1, info := p.2 } : Program))
+      (Parse.bind (info (many ctx (fun (g : GlobalDecl) => g.info.range) (parseGlobalDecl ctx) (loopFuel ctx) none))
+        (fun r => Parse.bind (allConsuming ctx (tk ctx .Eof)) (fun _ => pure' r))) { pos := 0 } = .panic e := he
+  unfold pmap Parse.bind at he'
+  cases h1 : info (many ctx (fun (g : GlobalDecl) => g.info.range) (parseGlobalDecl ctx) (loopFuel ctx) none) { pos := 0 } with
+  | ok s1 r =>
+    rw [h1] at he'
+    simp only at he'
+    have w1 := (hL.ok _ _ h1).wf ctx hw
+    have ht := tk_safeW ctx .Eof s1 w1
+    unfold allConsuming at he'
+    cases h2 : tk ctx .Eof s1 with
+    | ok s2 t =>
+      rw [h2] at he'
+      simp only at he'
+      by_cases hq : (s2.pos == ctx.toks.size) = true
+      · simp [hq, pure'] at he'
+      · simp [hq] at he'
+    | err k x => rw [h2] at he'; simp at he'
+    | panic e2 => exact absurd h2 (ht.np e2)
+  | err k x => rw [h1] at he'; simp at he'
+  | panic e1 => exact absurd h1 (hL.np e1)
 
 /-! ### every loop element consumes a token -/
 
-theorem ignoreUntil1_strict (pattern : P Unit) (hE : AtEof ctx pattern) (fuel : Nat) (s : St) (hw : WF ctx s)
+theorem ignoreUntil1_strict (pattern : P Unit) (hE : AtEof ctx pattern) (hK : AtKw ctx pattern) (fuel : Nat) (s : St) (hw : WF ctx s)
     (hf : ctx.toks.size - s.pos < fuel)
     (hp : ∀ s', WF ctx s' → s.pos ≤ s'.pos → s'.refPos = s.refPos → Safe ctx pattern s') :
     Strict (ignoreUntil1 ctx pattern fuel) s := by
@@ -1785,7 +2044,7 @@ theorem ignoreUntil1_strict (pattern : P Unit) (hE : AtEof ctx pattern) (fuel : 
       have hf1 : ctx.toks.size - ({ s with pos := s.pos + 1 } : St).pos < f := by
         show ctx.toks.size - (s.pos + 1) < f
         omega
-      obtain ⟨_, g2, _⟩ := ignoreUntil0_safe ctx pattern hE s.refPos f s.pos _ _ w1 hf1 rfl (Post.refl ctx w1)
+      obtain ⟨_, g2, _⟩ := ignoreUntil0_safe ctx pattern hE hK s.refPos f s.pos _ _ w1 hf1 rfl (Post.refl ctx w1)
         (fun s2 w2 l2 r2 => hp s2 w2 (by simp at l2; omega) r2)
       have := (g2 _ _ h).1
       simp at this
@@ -1803,7 +2062,7 @@ theorem stmtParseError_strict (s : St) (hw : WF ctx s) : Strict (stmtParseError 
     have hd := docComments_safe ctx _ w0
     refine strict_bind_right ctx hd (fun s1 _ e1 => ?_)
     have w1 := hd.wf_ok ctx w0 e1
-    exact ignoreUntil1_strict ctx _ (peekla_atEof ctx .stmt) _ s1 w1 (loopFuel_ok ctx s1 w1) (fun s' w _ _ => peekla_safe ctx .stmt s' w)
+    exact ignoreUntil1_strict ctx _ (peekla_atEof ctx .stmt) (peekla_atKw ctx .stmt) _ s1 w1 (loopFuel_ok ctx s1 w1) (fun s' w _ _ => peekla_safe ctx .stmt s' w)
   intro s' a h
   unfold stmtParseError at h
   cases hx : (pmap (fun (p : List Token × AstInfo) =>
@@ -1852,7 +2111,7 @@ theorem varDecl_strict (s : St) (hw : WF ctx s) : Strict (parseVarDecl ctx none)
   show Strict (alt2 (pmap _ (info (varDeclInner ctx none none))) (pmap _ (info (ignoreUntil1 ctx (peek (la ctx .var_dec)) (loopFuel ctx))))) s
   have w0 := wf_errBuf ctx hw []
   refine strict_alt2 (strict_pmap _ (strict_info (varDeclInner_safe ctx _ w0).2)) (strict_pmap _ (strict_info ?_))
-  exact ignoreUntil1_strict ctx _ (peekla_atEof ctx .var_dec) _ _ w0 (loopFuel_ok ctx _ w0) (fun s' w _ _ => peekla_safe ctx .var_dec s' w)
+  exact ignoreUntil1_strict ctx _ (peekla_atEof ctx .var_dec) (peekla_atKw ctx .var_dec) _ _ w0 (loopFuel_ok ctx _ w0) (fun s' w _ _ => peekla_safe ctx .var_dec s' w)
 
 theorem globalDecl_strict (s : St) (hw : WF ctx s) : Strict (parseGlobalDecl ctx none) s := by
   show Strict (altList [pmap GlobalDecl.type (pmap _ (info (typeDeclInner ctx none none))),
@@ -1866,7 +2125,7 @@ theorem globalDecl_strict (s : St) (hw : WF ctx s) : Strict (parseGlobalDecl ctx
   · exact strict_pmap _ (strict_pmap _ (strict_info (typeDeclInner_safe ctx _ w0).2))
   · exact strict_pmap _ (strict_pmap _ (strict_info (procDeclInner_safe ctx _ w0).2))
   · refine strict_pmap _ (strict_info ?_)
-    exact ignoreUntil1_strict ctx _ (peekla_atEof ctx .global_dec) _ _ w0 (loopFuel_ok ctx _ w0) (fun s' w _ _ => peekla_safe ctx .global_dec s' w)
+    exact ignoreUntil1_strict ctx _ (peekla_atEof ctx .global_dec) (peekla_atKw ctx .global_dec) _ _ w0 (loopFuel_ok ctx _ w0) (fun s' w _ _ => peekla_safe ctx .global_dec s' w)
 
 /-! ### what cannot fail -/
 
@@ -1909,7 +2168,7 @@ theorem comment_strict (s : St) : Strict (comment ctx) s := by
   | panic e => rw [h1] at h; cases h
 
 theorem docComments_noerr (s : St) (hw : WF ctx s) : NoErr (docComments ctx) s :=
-  many0_noerr ctx _ s.refPos _ s hw rfl (fun s' w _ _ => ⟨comment_safe ctx s' w, comment_strict ctx s'⟩)
+  many0_noerr ctx _ s.refPos _ s hw rfl (fun s' w _ _ => ⟨(comment_safe ctx s' w).k, comment_strict ctx s'⟩)
 
 /-- in front of the final `Eof` a recovery finds its synchronisation token: it does not run off the end -/
 theorem ignoreUntil0_noerr (pattern : P Unit) (hE : AtEof ctx pattern) (he : EofLast ctx) (r : Nat) :
@@ -1963,7 +2222,8 @@ theorem paramList_noerr (he : EofLast ctx) (s : St) (hw : WF ctx s) (hB : s.pos 
   have w1 := h0.wf_ok ctx hw e1
   refine noerr_pmap _ (noerr_congr (many_none ctx _ _ _ s1) ?_)
   exact many0_noerr ctx _ s1.refPos _ s1 w1 rfl (fun s2 w2 l2 _ =>
-    commaElem_both ctx (parseParamDecl ctx) s2 w2 (fun s' w _ => paramDecl_safe ctx _ (wf_reref ctx w)))
+    let hb := commaElem_both ctx (parseParamDecl ctx) s2 w2 (fun s' w _ => paramDecl_safe ctx _ (wf_reref ctx w))
+    ⟨hb.1.k, hb.2⟩)
 
 /-- documentation comments, a keyword, then something that cannot fail: a failure is a missing keyword -/
 theorem doctk_err {β} (k : Kind) (tail : List (List Char) → Token → P β) (s : St) (hw : WF ctx s)
@@ -1981,14 +2241,14 @@ theorem doctk_err {β} (k : Kind) (tail : List (List Char) → Token → P β) (
     simp only at h
     have p1 := hd.ok _ _ h1
     have w1 := p1.wf ctx hw
-    have ht := tk_safe ctx k s1 w1 hk
+    have ht := tk_safeK ctx k s1 w1 hk
     cases h2 : tk ctx k s1 with
     | ok s2 t =>
       rw [h2] at h
       simp only at h
       have p2 := ht.ok _ _ h2
       exact absurd h (hn s2 doc t (p2.wf ctx w1) (by have := p1.1; have := (tk_ok ctx w1 h2).1; omega)
-        (by rw [p2.2.2.1, p1.2.2.1]) (fun he hb => p2.2.2.2 he (p1.2.2.2 he hb)) k' x)
+        (by rw [p2.2.2.1, p1.2.2.1]) (fun he hb => p2.2.2.2 he (p1.2.2.2.1 he hb)) k' x)
     | err k2 x2 => exact ⟨s1, doc, rfl, k2, x2, h2⟩
     | panic e => rw [h2] at h; cases h
   | err k1 x1 => exact absurd h1 (docComments_noerr ctx s hw k1 x1)
@@ -1996,7 +2256,7 @@ theorem doctk_err {β} (k : Kind) (tail : List (List Char) → Token → P β) (
 
 /-- name, `=`/`:`, type, `;` never fail -/
 theorem declTail_noerr (k k1 k2 : Kind) (m1 m2 m3 : Msg) (doc : List (List Char)) (s : St) (hw : WF ctx s)
-    (hk : k ≠ Kind.Eof) (hk1 : k1 ≠ Kind.Eof) (hk2 : k2 ≠ Kind.Eof) :
+    (hk : Plain k) (hk1 : Plain k1) (hk2 : Plain k2) :
     NoErr (Parse.bind (Parse.expect none (parseIdentifier ctx) (.ExpectedToken (chars "identifier"))) (fun name =>
       Parse.bind (Parse.expect none (inc (altList [tk ctx k, confusable (tk ctx k1) m1, confusable (tk ctx k2) m2])) m3) (fun _ =>
       Parse.bind (Parse.expect none (refTypeExpr ctx) (.ExpectedToken (chars "type expression"))) (fun te =>
@@ -2032,11 +2292,11 @@ theorem procDeclInner_err (he : EofLast ctx) (s : St) (hw : WF ctx s) (hB : s.po
   have h2 := expect_safe ctx (.ExpectedToken (chars "identifier")) w2 (parser := parseIdentifier ctx) (ident_safe ctx s2 w2)
   refine noerr_bind h2.2 (fun s3 _ e3 => ?_)
   have w3 := h2.1.wf_ok ctx w2 e3
-  have b3 : s3.pos < ctx.toks.size := (h2.1.ok _ _ e3).2.2.2 he b2
+  have b3 : s3.pos < ctx.toks.size := (h2.1.ok _ _ e3).2.2.2.1 he b2
   have h3 := expect_safe ctx (.MissingOpening '(') w3 (parser := inc (tk ctx .LParen)) (tk_safe ctx _ s3 w3)
   refine noerr_bind h3.2 (fun s4 _ e4 => ?_)
   have w4 := h3.1.wf_ok ctx w3 e4
-  have b4 : s4.pos < ctx.toks.size := (h3.1.ok _ _ e4).2.2.2 he b3
+  have b4 : s4.pos < ctx.toks.size := (h3.1.ok _ _ e4).2.2.2.1 he b3
   have hps : Safe ctx (alt2
       (pmap (fun _ => ([] : List (Ref ParamDecl)))
         (peek (altList [void (tk ctx .RParen), void (tk ctx .LCurly), void (tk ctx .Eof)])))
@@ -2058,7 +2318,7 @@ theorem procDeclInner_err (he : EofLast ctx) (s : St) (hw : WF ctx s) (hB : s.po
     (fun s' w _ => varDecl_safe ctx _ (wf_reref ctx w))
   have n7 : NoErr (many ctx (fun (v : VarDecl) => v.info.range) (parseVarDecl ctx) (loopFuel ctx) none) s7 :=
     noerr_congr (many_none ctx _ _ _ s7) (many0_noerr ctx _ s7.refPos _ s7 w7 rfl (fun s' w _ _ =>
-      ⟨refParse_safe ctx w (varDecl_safe ctx _ (wf_reref ctx w)), strict_refParse (varDecl_strict ctx _ (wf_reref ctx w))⟩))
+      ⟨(refParse_safe ctx w (varDecl_safe ctx _ (wf_reref ctx w))).k, strict_refParse (varDecl_strict ctx _ (wf_reref ctx w))⟩))
   refine noerr_bind n7 (fun s8 _ e8 => ?_)
   have w8 := h7.wf_ok ctx w7 e8
   have hfuel : ∀ s', WF ctx s' → 2 * (ctx.toks.size - ({ s' with refPos := s'.pos } : St).pos) + 2 ≤ stmtFuel ctx := by
@@ -2070,7 +2330,7 @@ theorem procDeclInner_err (he : EofLast ctx) (s : St) (hw : WF ctx s) (hB : s.po
     (fun s' w _ => stmt_safe ctx _ (wf_reref ctx w))
   have n8 : NoErr (many ctx (fun (s : Stmt) => s.info.range) (parseStmt ctx (stmtFuel ctx)) (loopFuel ctx) none) s8 :=
     noerr_congr (many_none ctx _ _ _ s8) (many0_noerr ctx _ s8.refPos _ s8 w8 rfl (fun s' w _ _ =>
-      ⟨refParse_safe ctx w (stmt_safe ctx _ (wf_reref ctx w)),
+      ⟨(refParse_safe ctx w (stmt_safe ctx _ (wf_reref ctx w))).k,
        strict_refParse (stmt_strict ctx _ _ (wf_reref ctx w) (hfuel s' w))⟩))
   refine noerr_bind n8 (fun s9 _ e9 => ?_)
   have w9 := h8.wf_ok ctx w8 e9
@@ -2271,10 +2531,9 @@ theorem program_total (he : EofLast ctx) : ∃ s' p, parseProgram ctx none { pos
     omega
   -- the loop over the declarations
   have w0 : WF ctx ({ ({ pos := 0 } : St) with errBuf := [] }) := hw
-  have hM := many0_safe ctx (refParse (parseGlobalDecl ctx) none) 0 (loopFuel ctx) { pos := 0 } hw (loopFuel_ok ctx _ hw) rfl
-    (fun s' w _ _ => refParse_safe ctx w (globalDecl_safe ctx _ (wf_reref ctx w)))
+  have hM := declLoop_safe ctx { pos := 0 } hw
   have nM := many0_noerr ctx (refParse (parseGlobalDecl ctx) none) 0 (loopFuel ctx) { pos := 0 } hw rfl
-    (fun s' w _ _ => ⟨refParse_safe ctx w (globalDecl_safe ctx _ (wf_reref ctx w)),
+    (fun s' w _ _ => ⟨refParse_safeK ctx w (globalDecl_safe ctx _ (wf_reref ctx w)),
       strict_refParse (globalDecl_strict ctx _ (wf_reref ctx w))⟩)
   cases hL : many0 (refParse (parseGlobalDecl ctx) none) (loopFuel ctx) { pos := 0 } with
   | err k x => exact absurd hL (nM k x)
@@ -2359,7 +2618,7 @@ theorem program_total (he : EofLast ctx) : ∃ s' p, parseProgram ctx none { pos
       rw [heof'] at this
       exact this
     -- assemble: no panic (`program_safe`), no failure
-    have hnp := (program_safe ctx).np
+    have hnp := program_np ctx
     have hne : NoErr (parseProgram ctx none) { pos := 0 } := by
       show NoErr (pmap (fun (p : List (Ref GlobalDecl) × AstInfo) => ({ decls := p.1, info := p.2 } : Program))
         (Parse.bind (info (many ctx (fun (g : GlobalDecl) => g.info.range) (parseGlobalDecl ctx) (loopFuel ctx) none))
